@@ -336,6 +336,9 @@ func runC18(r *Run) {
 	defer sk.l.Close()
 	socksAddr := sk.l.Addr().String()
 	nbb := r.N(250, 4000)
+	// one TLS configuration for all upstreams, as a caller with several upstreams may well do: what one upstream
+	// derives from its own address (the default server name) must not reach another
+	sharedTLS := &tls.Config{InsecureSkipVerify: true}
 	for i := 0; i < nbb; i++ {
 		a := r.genAddr18()
 		if a.scheme == "" || a.scheme == "udp" || a.scheme == "quic" || a.scheme == "h3" {
@@ -347,7 +350,11 @@ func runC18(r *Run) {
 				a.path = ""
 			}
 		}
-		u, err := upstream.NewUpstream(a.url(), upstream.Opt{Socks5: socksAddr, DialAddr: a.dial, TLSConfig: &tls.Config{InsecureSkipVerify: true}})
+		u, err := upstream.NewUpstream(a.url(), upstream.Opt{Socks5: socksAddr, DialAddr: a.dial, TLSConfig: sharedTLS})
+		if sharedTLS.ServerName != "" {
+			r.Fail("creating an upstream changed the TLS configuration the caller passed in (the next upstream built from it would use this one's server name)", map[string]any{"addr": a.url(), "dial_addr": a.dial, "server_name_written": sharedTLS.ServerName})
+			sharedTLS = &tls.Config{InsecureSkipVerify: true}
+		}
 		wantHost, wantPort := a.expected()
 		desc := map[string]any{"addr": a.url(), "dial_addr": a.dial, "want_host": wantHost, "want_port": wantPort}
 		// model line: what does the model say NewUpstream dials for this URL host?
